@@ -1,9 +1,18 @@
 #!/venv/bin/python
-"""setup_cmd: full (.vo) build of the Coq development from files on disk."""
+"""setup_cmd: full (.vo) build of the Coq development from files on disk (make -k); succeeds iff
+every file in the dependency cone of every registered property is built."""
 import os
 import sys
 sys.path.insert(0, os.path.dirname(os.path.abspath(__file__)))
 import lib
 ok, log = lib.coq_build(timeout=3000)
-print(log[-3000:])
-sys.exit(0 if ok else 1)
+enabled = open(os.path.join(lib.ROOT, "harness", "manifest_enabled.txt")).read().split()
+bad = {}
+for pid in enabled:
+    st = lib.coq_cone_fresh(pid)
+    if st:
+        bad[pid] = st
+if not ok:
+    print(log[-3000:])
+print("coq build:", "ok" if ok else "some files failed (make -k)", "| registered properties with unbuilt files:", bad or "none")
+sys.exit(1 if bad else 0)
